@@ -11,6 +11,7 @@ import (
 	"time"
 
 	"github.com/google/gce-tcb-verifier/gcetcbendorsement"
+	"github.com/google/gce-tcb-verifier/gcetcbendorsement/parsepath"
 	epb "github.com/google/gce-tcb-verifier/proto/endorsement"
 	"google.golang.org/protobuf/proto"
 	"google.golang.org/protobuf/reflect/protoreflect"
@@ -59,10 +60,6 @@ func lenClass(n int) string {
 		return "64-1025"
 	}
 	return ">1025"
-}
-
-func renderBudget(n int) core.Budget {
-	return core.Budget{CPU: 2*time.Second + time.Duration(n)*time.Second/(1<<20), Alloc: 64<<20 + 4096*uint64(n)}
 }
 
 // checkBytes judges one rendering of want.
@@ -168,7 +165,7 @@ func (k *checker) runCLI(i int, gen, sub string, endorsement []byte, f form, pat
 		args = append(args, "--path="+path)
 	}
 	cli := &doubles.CLI{IO: io, Now: time.Date(2025, 3, 1, 0, 0, 0, 0, time.UTC)}
-	m := k.c.Guard(i, "cli inspect "+sub, gen, renderBudget(len(endorsement)), func() { err = cli.Run(args...) })
+	m := k.guard(i, "cli inspect "+sub, gen, len(endorsement), func() { err = cli.Run(args...) })
 	return io.Files[dest], err, m.Panicked
 }
 
@@ -217,8 +214,13 @@ func bytesPaths(m protoreflect.Message, prefix []pathref.Step, out *[][]pathref.
 func cliSafe(s string) bool { return !strings.ContainsAny(s, ",\"'\\\n\r\x00") && s != "" }
 
 // judgeMask judges one Mask-like call (API or CLI) on a path with reference walk w.
-func (k *checker) judgeMask(i int, entry, gen, text string, msg protoreflect.Message, w pathref.Walked, f form, out []byte, err error) {
+func (k *checker) judgeMask(i int, entry, gen, text string, parses bool, msg protoreflect.Message, w pathref.Walked, f form, out []byte, err error) {
 	c := k.c
+	if !parses && err != nil {
+		// ParsePath itself rejects the text: allowed by C19 whatever the path addresses (counted, floors apply)
+		c.Count("mask/"+entry+"/path-parse-rejected/expected-"+w.Status.String(), 1)
+		return
+	}
 	viol := func(rule, format string, a ...any) {
 		c.Violate(core.Violation{Kind: "oracle", Entry: entry, Site: rule, Gen: gen, Case: i, Detail: fmt.Sprintf("path %q, form %s: ", text, f.name) + fmt.Sprintf(format, a...),
 			Witness: map[string]any{"path": text, "message_type": string(msg.Descriptor().FullName()), "message_text": showMsg(msg), "message_wire_b64": wireB64(msg), "reference": w.Status.String(), "reference_why": w.Why}})
@@ -244,6 +246,13 @@ func (k *checker) judgeMask(i int, entry, gen, text string, msg protoreflect.Mes
 	}
 }
 
+// parses reports whether ParsePath accepts the text for the root type (panics are reported by guard).
+func (k *checker) parses(i int, gen, text string, rt rootType) bool {
+	var err error
+	m := k.guard(i, entParse, gen, len(text), func() { _, err = parsepath.ParsePath(rt.mt.Descriptor(), text) })
+	return !m.Panicked && err == nil
+}
+
 func (k *checker) render(i int, r *rand.Rand) {
 	c := k.c
 	switch sub := r.IntN(10); {
@@ -266,7 +275,7 @@ func (k *checker) render(i int, r *rand.Rand) {
 				w := &recWriter{term: f.term}
 				ctx := gcetcbendorsement.WithInspect(context.Background(), &gcetcbendorsement.Inspect{Writer: w, Form: f.form})
 				var err error
-				g := c.Guard(i, "Inspect"+which, gen, renderBudget(len(want)), func() { err = call(ctx, e) })
+				g := k.guard(i, "Inspect"+which, gen, len(want), func() { err = call(ctx, e) })
 				if !g.Panicked {
 					if err != nil {
 						c.Oracle(i, "Inspect"+which, "rendering-failed", gen, "form %s: writing %d bytes to an in-memory writer failed: %v", f.name, len(want), err)
@@ -339,6 +348,7 @@ func (k *checker) render(i int, r *rand.Rand) {
 		w := pathref.Walk(dec, steps)
 		gen := fmt.Sprintf("render/mask-golden/%s/%s/%s", how, cut(w.Shape), w.Status)
 		c.Begin(i, gen, "InspectMask+cli inspect mask", []byte(text))
+		parses := k.parses(i, gen, text, rtGolden)
 		forms := renderForms
 		if w.Final != "bytes" || w.Status != pathref.Present {
 			forms = renderForms[r.IntN(len(renderForms)):][:1]
@@ -347,16 +357,16 @@ func (k *checker) render(i int, r *rand.Rand) {
 			rw := &recWriter{term: f.term}
 			ctx := gcetcbendorsement.WithInspect(context.Background(), &gcetcbendorsement.Inspect{Writer: rw, Form: f.form})
 			var err error
-			gd := c.Guard(i, "InspectMask", gen, renderBudget(len(wire)), func() {
+			gd := k.guard(i, "InspectMask", gen, len(wire), func() {
 				err = gcetcbendorsement.InspectMask(ctx, e, &fmpb.FieldMask{Paths: []string{text}})
 			})
 			if !gd.Panicked {
-				k.judgeMask(i, "InspectMask", gen, text, dec, w, f, rw.buf.Bytes(), err)
+				k.judgeMask(i, "InspectMask", gen, text, parses, dec, w, f, rw.buf.Bytes(), err)
 			}
 			if cliSafe(text) {
 				out, err, panicked := k.runCLI(i, gen, "mask", wire, f, text, r)
 				if !panicked {
-					k.judgeMask(i, "cli inspect mask", gen, text, dec, w, f, out, err)
+					k.judgeMask(i, "cli inspect mask", gen, text, parses, dec, w, f, out, err)
 					if err == nil {
 						k.cliOK++
 					}
@@ -381,6 +391,7 @@ func (k *checker) render(i int, r *rand.Rand) {
 		w := pathref.Walk(m, steps)
 		gen := fmt.Sprintf("render/mask-test/%s/%s", cut(w.Shape), w.Status)
 		c.Begin(i, gen, "MaskOptions.Mask", []byte(text))
+		parses := k.parses(i, gen, text, rtTest)
 		forms := renderForms
 		if w.Final != "bytes" || w.Status != pathref.Present {
 			forms = renderForms[r.IntN(len(renderForms)):][:1]
@@ -389,11 +400,11 @@ func (k *checker) render(i int, r *rand.Rand) {
 			rw := &recWriter{term: f.term}
 			opts := &gcetcbendorsement.MaskOptions{BytesForm: f.form, Writer: rw}
 			var err error
-			gd := c.Guard(i, "MaskOptions.Mask", gen, renderBudget(len(text)), func() {
+			gd := k.guard(i, "MaskOptions.Mask", gen, len(text), func() {
 				err = opts.Mask(m.Interface(), &fmpb.FieldMask{Paths: []string{text}})
 			})
 			if !gd.Panicked {
-				k.judgeMask(i, "MaskOptions.Mask", gen, text, m, w, f, rw.buf.Bytes(), err)
+				k.judgeMask(i, "MaskOptions.Mask", gen, text, parses, m, w, f, rw.buf.Bytes(), err)
 			}
 		}
 		c.End(i)
